@@ -72,6 +72,13 @@ def check_repair(case, acc, sample=False):
     full = dict(case, layer='repair')
     system = vermouth.System(force_field=ff)
     mol, by_res = tripeptide(sequence, ff)
+    # atoms beyond the block on residues that NO request names (a protonated side chain, an unknown substituent): RepairGraph
+    # only flags them as unrecognised; removing surplus atoms is for the residues a request rebuilds
+    extras = [tuple(e) for e in case.get('extras', [])]
+    for ridx, anchor, newname, element in extras:
+        key = max(mol.nodes) + 1
+        mol.add_node(key, atomname=newname, resname=sequence[ridx], resid=ridx + 1, chain='A', element=element)
+        mol.add_edge(key, by_res[ridx][anchor])
     system.add_molecule(mol)
     def library_state():
         # only the request attributes: RepairGraph also caches a derived 'element' on block atoms, which is harmless
@@ -101,6 +108,10 @@ def check_repair(case, acc, sample=False):
             if (spec == 'nter' and is_first) or (spec == 'cter' and is_last) or spec == '#%d' % resid:
                 if modname != 'none':
                     names = sorted(names + mod_added_names(ff, modname))
+        named = target != resname or any((spec == 'nter' and idx == 0) or (spec == 'cter' and idx == len(sequence) - 1) or spec == '#%d' % resid
+                                         for spec, _ in modifications)
+        if not named:
+            names = sorted(names + [newname for ridx, _, newname, _ in extras if ridx == idx])
         expected[resid] = (target, names)
     got = {}
     flagged = {}
@@ -153,6 +164,9 @@ def check_repair(case, acc, sample=False):
             if modname != 'none' and ((spec == 'nter' and is_first) or (spec == 'cter' and is_last) or spec == '#%d' % resid):
                 mod = ff.modifications[modname]
                 want_bonds |= {frozenset((mod.nodes[a]['atomname'], mod.nodes[b]['atomname'])) for a, b in mod.edges}
+        if not any(t for t in [target != sequence[resid - 1]]) and not any(
+                (spec == 'nter' and resid == 1) or (spec == 'cter' and resid == len(sequence)) or spec == '#%d' % resid for spec, _ in modifications):
+            want_bonds |= {frozenset((anchor, newname)) for ridx, anchor, newname, _ in extras if ridx == resid - 1}
         have_bonds = {frozenset((out.nodes[a]['atomname'], out.nodes[b]['atomname'])) for a, b in out.edges
                       if out.nodes[a]['resid'] == resid and out.nodes[b]['resid'] == resid}
         if have_bonds != want_bonds:
@@ -162,7 +176,7 @@ def check_repair(case, acc, sample=False):
         if resn != {target}:
             problems.append(('c19:repair-resname', 'residue %d carries residue names %r after the request for %s' % (resid, resn, target)))
             break
-        allowed = set()
+        allowed = {newname for ridx, _, newname, _ in extras if ridx == resid - 1}
         for spec, modname in modifications:
             if modname != 'none':
                 allowed |= set(mod_added_names(ff, modname))
@@ -194,6 +208,23 @@ def cases():
         if side[1] in charmm().modifications:
             out.append({'sequence': seq, 'mutations': [], 'modifications': [side, term]})
             out.append({'sequence': seq, 'mutations': [], 'modifications': [term, side]})
+    # a residue that no request names carries an extra atom, before / after the residue(s) the requests rebuild
+    for seq, extra in ((['ALA', 'GLU', 'ALA'], (1, 'OE2', 'HE2', 'H')), (['ALA', 'SER', 'ALA'], (1, 'OG', 'PX', 'P')),
+                       (['GLU', 'GLY', 'ALA'], (0, 'OE2', 'HE2', 'H')), (['ALA', 'GLY', 'ASP'], (2, 'OD2', 'HD2', 'H'))):
+        ridx = extra[0]
+        requests = []
+        for pos in range(3):
+            if pos != ridx:
+                requests.append(([('%s%d' % (seq[pos], pos + 1), 'VAL')], []))
+        if ridx != 0:
+            requests.append(([], [('nter', 'N-ter')]))
+        if ridx != 2:
+            requests.append(([], [('cter', 'C-ter')]))
+        if ridx == 1:
+            requests.append(([('ALA1', 'GLY')], [('cter', 'C-ter'), ('nter', 'N-ter')]))
+        requests.append(([], []))
+        for mutations, modifications in requests:
+            out.append({'sequence': seq, 'mutations': mutations, 'modifications': modifications, 'extras': [extra]})
     return out
 
 
